@@ -177,11 +177,20 @@ impl Prop for C17 {
         let m = ch.below(n + 1);
         let kind_idx = ch.weighted(&[2, 2, 3, 2, 2, 4]);
         let mut applied: Vec<String> = names[..m].to_vec();
+        // bytes put behind one entry / a line that is no text at all
+        let mut unreadable: Option<(usize, Vec<u8>)> = None;
         let kind: String;
         let set_state = |ws: &mut WsCase, m: usize| {
             ws.spec.tree = ws.states[m].clone();
         };
         match kind_idx {
+            0 if m >= 1 && ch.chance(1, 3) => {
+                // an entry the tool cannot read at all: an option it does not know, or bytes that are no text
+                let i = ch.below(m);
+                unreadable = Some((i, ch.pick(&[&b" -x"[..], &b" --frobnicate"[..], &b"\xff\xfe"[..], &b"\n\xc3\x28"[..]]).to_vec()));
+                kind = "applied-entry-unreadable".into();
+                set_state(&mut ws, m);
+            }
             0 if m >= 1 => {
                 let i = ch.below(m);
                 applied[i] = if ch.chance(1, 2) { "not-in-series.patch".into() } else { names[(i + 1) % n].clone() + "x" };
@@ -310,6 +319,17 @@ impl Prop for C17 {
                 t.clear();
             }
             ws.spec.applied = Some(B(t.into_bytes()));
+        }
+        if let Some((i, junk)) = unreadable {
+            let mut t: Vec<u8> = Vec::new();
+            for (k, a) in applied.iter().enumerate() {
+                t.extend_from_slice(a.as_bytes());
+                if k == i {
+                    t.extend_from_slice(&junk);
+                }
+                t.push(b'\n');
+            }
+            ws.spec.applied = Some(B(t));
         }
         C17Case { ws, kind, opts }
     }
